@@ -503,6 +503,47 @@ func runC05(c *core.Ctx) {
 			}
 		}
 	}
+	// ---- the enum leaf under ggql.Relaxed = true (the package switch that lets strings stand for enum values on the way IN):
+	// on the way out a leaf is still the name of a declared value or null with an error - the scalar menu and Go values
+	// that print themselves (fmt.Stringer: a weekday, a time, a value that prints a member name)
+	for li, leaf := range c05Leaves {
+		if leaf != "E" {
+			continue
+		}
+		stringers := []c05Val{{"time.Saturday", time.Saturday}, {"time.Weekday(9)", time.Weekday(9)}, {"time.Time", time.Date(2021, 3, 4, 5, 6, 7, 0, time.UTC)},
+			{"Stringer(RED)", c05Stringer("RED")}, {"Stringer(PURPLE)", c05Stringer("PURPLE")}, {"*Stringer(nil)", (*c05Stringer)(nil)},
+			{"[]interface{}{RED, time.Saturday}", []interface{}{"RED", time.Saturday}}, {"[]interface{}{Stringer(PURPLE)}", []interface{}{c05Stringer("PURPLE")}}}
+		for _, w := range []int{0, 1, 2, 3} {
+			vals := append(append([]c05Val{}, c05Scalars()...), stringers...)
+			for _, val := range vals {
+				for pi, pos := range positions {
+					for _, st := range strats {
+						for _, relaxed := range []bool{true, false} {
+							idx++
+							if !c.OwnsIdx(idx) {
+								continue
+							}
+							field := fmt.Sprintf("r%d_%d", li, w)
+							q, path := "{ "+field+" }", []interface{}{field}
+							switch pi {
+							case 1:
+								q, path = "{ o { "+field+" } }", []interface{}{"o", field}
+							case 2:
+								q, path = "{ os { "+field+" } }", []interface{}{"os", 1, field}
+							}
+							c.Nontrivial()
+							c.Eval()
+							func() {
+								ggql.Relaxed = relaxed
+								defer func() { ggql.Relaxed = false }()
+								c05One(c, c05Root(st, sdl, val.V), c05Wrap(leaf, w), leaf, w, q, path, val, pos+map[bool]string{true: ", ggql.Relaxed = true", false: ""}[relaxed], st)
+							}()
+						}
+					}
+				}
+			}
+		}
+	}
 	// ---- two list fields of DIFFERENT leaf types answered from one Go slice (every back end hands out the same value for
 	// every field): each list must be coerced into a list of its own, the two answers may not share anything
 	shared := []c05Val{{"[]interface{}{1,2}", []interface{}{1, 2}}, {"[]interface{}{12,7 as strings}", []interface{}{"12", "7"}}, {"[]interface{}{true,false}", []interface{}{true, false}},
@@ -771,3 +812,8 @@ func c05One(c *core.Ctx, root *ggql.Root, t *world.T, leaf string, w int, q stri
 	c.Outcome("well-typed")
 	c.Sample(func() interface{} { return detail })
 }
+
+// c05Stringer prints itself: a Go value of an application's own enum type.
+type c05Stringer string
+
+func (x c05Stringer) String() string { return string(x) }
